@@ -34,6 +34,47 @@ Theorem C18_pathslice_exact : forall path bufsiz beg end_ s,
 Proof. exact pathslice_exact. Qed.
 Print Assumptions C18_pathslice_exact.
 
+(* ---- compositions ----
+   every path the code acts on is a nesting of these primitives over configuration strings, environment values and file
+   names (NamesDefs.pexp).  For EVERY such nesting: a result is exactly the intended string, there is a result iff every
+   buffer on the way can hold its intended content, and so no result is ever a proper prefix of the intended path. *)
+Theorem C18_composed_exact : forall e s, compute e = Some s -> s = intended e.
+Proof. exact compute_exact. Qed.
+Print Assumptions C18_composed_exact.
+
+Theorem C18_composed_defined : forall e, compute e <> None <-> all_fit e = true.
+Proof. exact compute_defined. Qed.
+Print Assumptions C18_composed_defined.
+
+Theorem C18_composed_never_truncates : forall e s, compute e = Some s -> forall rest, intended e = s ++ rest -> rest = [].
+Proof. exact compute_never_truncates. Qed.
+Print Assumptions C18_composed_never_truncates.
+
+(* the flows of the code as instances (buffer sizes PATH_MAX / NAME_MAX+1 from Generated): the path of a message in a
+   maildir, the path of a delivered message (interpolated destination, sub-directory, generated name), and the
+   temporary-file template under TMPDIR *)
+Theorem C18_message_path : forall root sub name s,
+  compute (e_message_path root sub name) = Some s -> s = root ++ [47%N] ++ sub ++ [47%N] ++ name /\ (length s < PM)%nat.
+Proof. exact message_path_exact. Qed.
+Print Assumptions C18_message_path.
+
+Theorem C18_delivered_path : forall dest sub newname s,
+  compute (e_delivered_path dest sub newname) = Some s -> s = dest ++ [47%N] ++ sub ++ [47%N] ++ newname /\ (length s < PM)%nat.
+Proof. exact delivered_path_exact. Qed.
+Print Assumptions C18_delivered_path.
+
+Theorem C18_tmp_template : forall tmpdir s,
+  compute (e_tmp_template tmpdir) = Some s -> s = tmpdir ++ [47%N] ++ tmpl /\ (length tmpdir + 16 < PM)%nat.
+Proof. exact tmp_template_exact. Qed.
+Print Assumptions C18_tmp_template.
+
+(* non-vacuity: a short maildir yields its message path; a TMPDIR of PATH_MAX-16 characters yields no template *)
+Example C18_ex_flows :
+  compute (e_message_path [47; 109]%N [110; 101; 119]%N [120]%N) = Some [47; 109; 47; 110; 101; 119; 47; 120]%N /\
+  compute (e_tmp_template (repeat 100%N (PM - 16))) = None /\
+  compute (e_tmp_template (repeat 100%N (PM - 17))) <> None.
+Proof. vm_compute. repeat split. discriminate. Qed.
+
 (* the generated name is checked against NAME_MAX+1 before it is used: GenOk only for names that fit *)
 Theorem C18_genname_fits : forall fuel ex ts pid count host flags bufsiz tries name t,
   genname_loop fuel ex ts pid count host flags bufsiz tries = GenOk name t -> (length name < bufsiz)%nat.
